@@ -185,3 +185,30 @@ ben("benign_want_tracks_as_frozenset", [
      '''                if want_tracks is not None and instrument_difficulty_pair not in want_tracks:''',
      '''                if wanted is not None and instrument_difficulty_pair not in wanted:'''),
 ], "selection membership through a frozenset built once per call")
+
+ben("benign_hint_parameter_positional_or_keyword", [
+    ("chartparse/sync.py",
+     '''    def timestamp_at_tick(
+        self, tick: Tick, *, start_iteration_index: int = 0
+    ) -> tuple[Timestamp, int]:''',
+     '''    def timestamp_at_tick(
+        self, tick: Tick, start_iteration_index: int = 0
+    ) -> tuple[Timestamp, int]:'''),
+], "the hint may also be passed positionally")
+
+ben("benign_package_init_reexports_chart", [
+    ("chartparse/__init__.py", None, '''from chartparse.chart import Chart  # noqa: F401
+'''),
+], "the package __init__ re-exports Chart (so every first import loads chart first)")
+
+ben("benign_all_lists_added", [
+    ("chartparse/time.py", '''Timestamp = typ.NewType("Timestamp", timedelta)
+''', '''Timestamp = typ.NewType("Timestamp", timedelta)
+__all__ = ["Timestamp", "add"]
+'''),
+    ("chartparse/exceptions.py", '''from __future__ import annotations
+''', '''from __future__ import annotations
+
+__all__ = ["RegexNotMatchError", "MissingRequiredField", "UnreachableError", "raise_"]
+'''),
+], "__all__ lists in two modules")
